@@ -36,6 +36,7 @@ def main():
     ap.add_argument("--demo-mode", default="append", help="append | file (copy to demo_target)")
     ap.add_argument("--demo2-file", default="", help="optional second demo file (appended to --demo2-target)")
     ap.add_argument("--demo2-target", default="")
+    ap.add_argument("--pre", default="", help="shell command run in the worktree after the demo is placed (e.g. add a dev-dependency); undone by git checkout")
     ap.add_argument("--skip-confirm", action="store_true")
     ap.add_argument("--needs", default="")
     ap.add_argument("--props", default="", help="comma list of properties to run (default: all)")
@@ -56,6 +57,8 @@ def main():
     confirm = {}
 
     def put_demo():
+        if a.pre:
+            sh(a.pre, cwd=wt)
         if a.demo2_file:
             with open(os.path.join(wt, a.demo2_target), "a") as f:
                 f.write("\n" + open(os.path.join(md, a.demo2_file)).read())
